@@ -44,6 +44,8 @@ Classify == At("one") => PropClassify(q) /\ PropClassLattice(q)
 ClassInvariant == At("one") => \A kk \in (-KU)..KU : PropClassInvariant(q, kk)
 \* ---- integer scaling (stage "mul")
 MulIntIsRepeatedAdd == At("mul") => PropMulInt(q, k)
+\* Div<i64> on the representative: canonical result
+DivIntCanonical == At("mul") => PropDivIntCanonical(q, k)
 \* ---- limit_denominator (stage "lim")
 LimitImplIsDecl == At("lim") => PropLimit(q, m)
 LimitOnPhases == At("lim") => PropLimitPhase(q, m)
@@ -51,6 +53,8 @@ LimitOnPhases == At("lim") => PropLimitPhase(q, m)
 Commutative == At("pair") => PropCommutative(q, r)
 SubIsAddNeg == At("pair") => PropSub(q, r)
 AgreesWithRationals == At("pair") => PropAddClass(q, r)
+\* Mul<Phase> / Div<Phase> on the representatives: canonical results
+RingCanonical == At("pair") => PropRingCanonical(q, r)
 \* ---- ternary (stage "triple")
 Associative == At("triple") => PropAssociative(q, r, s)
 
